@@ -99,6 +99,9 @@ pub struct JobResult {
     /// fingerprint of the iteration order of a canary set built on the job's thread at job start
     pub canary: String,
     pub calls: u64,
+    /// scheduling points from log statements of the code under test
+    #[serde(default)]
+    pub log_points: u64,
     pub log_digest: String,
     pub clock_calls: u32,
     pub pid_calls: u32,
